@@ -25,17 +25,22 @@ type Wiring struct {
 	A      []int    `json:"a"`
 	B      []int    `json:"b"`
 	Start  int      `json:"s"`
-	Phase  string   `json:"ph"`  // model: done / overflow
-	Out    []string `json:"out"` // model: what the caller sees
-	Work   int      `json:"wk"`  // model: fetches
-	Bound  int      `json:"bd"`  // model: bound on fetches for this wiring
+	Phase  string   `json:"ph"`             // model: done / overflow
+	Out    []string `json:"out"`            // model: what the caller sees
+	Work   int      `json:"wk"`             // model: fetches
+	Bound  int      `json:"bd"`             // model: bound on fetches for this wiring
+	Inst   string   `json:"inst,omitempty"` // which real structure plays the model's nodes (walkers with several)
 
 	k string
 }
 
 func (w *Wiring) key() string {
 	if w.k == "" {
-		w.k = fmt.Sprintf("%s/%d/%s/%v/%v/%d", w.Walker, w.N, strings.Join(w.Kind, ","), w.A, w.B, w.Start)
+		wk := w.Walker
+		if w.Inst != "" {
+			wk += ":" + w.Inst
+		}
+		w.k = fmt.Sprintf("%s/%d/%s/%v/%v/%d", wk, w.N, strings.Join(w.Kind, ","), w.A, w.B, w.Start)
 	}
 	return w.k
 }
@@ -158,13 +163,14 @@ func Materialise(w *Wiring, variant int) (data []byte, ok bool) {
 	// helper objects: catalog, page tree with one page, its content
 	catExtra := ""
 	pagesRoot := l.pages
+	pageRes, pageExtra, contentText := "<< >>", "", "q 1 0 0 1 0 0 cm Q"
 	addHelpers := func() {
 		f.obj(l.cat, fmt.Sprintf("<< /Type /Catalog /Pages %s %s>>", ref(pagesRoot), catExtra), true)
 		if pagesRoot == l.pages {
 			f.obj(l.pages, fmt.Sprintf("<< /Type /Pages /Kids [%s] /Count 1 >>", ref(l.page)), true)
-			f.obj(l.page, fmt.Sprintf("<< /Type /Page /Parent %s /MediaBox [0 0 100 100] /Resources << >> /Contents %s >>", ref(l.pages), ref(l.content)), true)
+			f.obj(l.page, fmt.Sprintf("<< /Type /Page /Parent %s /MediaBox [0 0 100 100] /Resources %s /Contents %s %s>>", ref(l.pages), pageRes, ref(l.content), pageExtra), true)
 		}
-		f.stm(l.content, "", "", []byte("q 1 0 0 1 0 0 cm Q"))
+		f.stm(l.content, "", "", []byte(contentText))
 	}
 	k := func(i int) string { return w.Kind[i-1] }
 	av := func(i int) int { return w.A[i-1] }
@@ -312,8 +318,46 @@ func Materialise(w *Wiring, variant int) (data []byte, ok bool) {
 		}
 		addHelpers()
 
+	case "decode", "fields", "parents", "objwalk":
+		h := materialiseExt(w, l, f, alt)
+		if h == nil {
+			return nil, false
+		}
+		catExtra, pageRes, pageExtra, contentText = h.catExtra, h.pageRes, h.pageExtra, h.content
+		addHelpers()
+
 	case "nametree":
-		catExtra = fmt.Sprintf("/Names << /Dests %s >> ", ref(1))
+		if w.Inst == "num" {
+			// the same walker code with integer keys: the page label number tree
+			catExtra = fmt.Sprintf("/PageLabels %s ", ref(1))
+			for i := 1; i <= w.N; i++ {
+				switch k(i) {
+				case "inner":
+					var kids []string
+					for _, v := range []int{av(i), bv(i)} {
+						if v != 0 {
+							kids = append(kids, l.tgt(v))
+						}
+					}
+					lim := "/Limits [0 99] "
+					if alt {
+						lim = ""
+					}
+					f.obj(i, fmt.Sprintf("<< %s/Kids [%s] >>", lim, strings.Join(kids, " ")), true)
+				case "leaf":
+					f.obj(i, fmt.Sprintf("<< /Limits [%d %d] /Nums [%d << /S /D /St %d >>] >>", i, i, i, i+1), true)
+				default:
+					if alt {
+						f.obj(i, "(str)", true)
+					} else {
+						f.obj(i, "5", true)
+					}
+				}
+			}
+			addHelpers()
+			break
+		}
+		catExtra = fmt.Sprintf("/Names << /Dests %s /EmbeddedFiles %s >> ", ref(1), ref(1))
 		for i := 1; i <= w.N; i++ {
 			switch k(i) {
 			case "inner":
